@@ -331,7 +331,7 @@ class C02(Prop):
             "message length < 16, count != flowsets), truncations, stray tail bytes, garbage; non-trivial = at least one packet decoded; distinct by hash")
 
     def cases(self, rng, tables, n, tier):
-        return [gen.large_buffer_case(rng, tables)] + [mixed_case(rng, tables) for _ in range(n)]
+        return [gen.large_buffer_case(rng, tables), gen.many_packets_case(rng, tables)] + [mixed_case(rng, tables) for _ in range(n)]
 
     def oracle(self, case, obs, crash, tables):
         return oracle.c02(case, obs, crash)
@@ -369,7 +369,7 @@ class C11(Prop):
             "least two packets decoded; distinct by hash")
 
     def cases(self, rng, tables, n, tier):
-        return [gen.large_buffer_case(rng, tables)] + [partition_case(rng, tables) for _ in range(max(1, n // 3))]
+        return [gen.large_buffer_case(rng, tables), gen.many_packets_case(rng, tables)] + [partition_case(rng, tables) for _ in range(max(1, n // 3))]
 
     def budget(self, tier):
         return 600 if tier == "quick" else 15000
@@ -426,7 +426,7 @@ class C12(Prop):
             "one packet decoded by the all-allowed twin; distinct by hash")
 
     def cases(self, rng, tables, n, tier):
-        return [filter_case(rng, tables) for _ in range(n)]
+        return [gen.toggling_case(rng, tables) for _ in range(max(1, n // 20))] + [filter_case(rng, tables) for _ in range(n)]
 
     def oracle(self, case, obs, crash, tables):
         return oracle.c12(case, obs, crash)
@@ -570,6 +570,9 @@ class C06(Prop):
 
     def cases(self, rng, tables, n, tier):
         out = [gen.many_templates_case(twins=False)]
+        c = gen.conformant_stream(rng, tables, npk=300, parsers=1, few_ids=True, kind_reuse=True)
+        c.gen = "long-history"
+        out.append(c)
         if tier == "thorough":
             out.append(gen.fill_caches_case())
         for i in range(n):
